@@ -98,7 +98,7 @@ func genUpdownAln(r *Rand, w, nq, nt int) (ref string, q, t Aln) {
 
 func init() {
 	register(&Prop{
-		ID: "C09", Level: "exploration", Quick: 16000, Thorough: 400000,
+		ID: "C09", Level: "exploration", Quick: 48000, Thorough: 3000000,
 		Rule: "trial = (reference, 1..5 queries, 1..14 targets sharing SNPs and ambiguity tracts, topranking option set); `updown list` of queries and targets is simulated to obtain the CSV forms, then topranking runs in the four csv/fasta combinations under independent seeded schedules; non-trivial = at least 2 queries and at least one query has a non-empty bin; distinct = distinct (inputs, options)",
 		Gen:   genC09,
 		Check: checkC09,
